@@ -13,6 +13,88 @@ MIRRORED = ["readFromListener", "onClient", "connectDo", "viaDo", "sendDo", "flu
             "shutdownDrain", "updateListener", "updateClient", "process"]
 
 
+EXTRA_ANCHORS = ["onListener", "handleFdEvent", "loopUnbatched", "loopBatched", "addEpoll", "modEpoll", "send", "sendAsync"]
+B = "include/iora/network/event_batch_processor.hpp"
+
+EAGAIN_EXIT = r"if\s*\(\s*errno\s*==\s*EAGAIN\s*\|\|\s*errno\s*==\s*EWOULDBLOCK\s*\)\s*break\s*;"
+ERR_EXIT_L = r"error\(\s*TransportError::Socket\s*,\s*\"recvfrom: \"\s*\+\s*lastErr\(\)\s*\)\s*;\s*break\s*;"
+ERR_EXIT_C = r"closeNow\(\s*s\s*,\s*TransportError::Socket\s*,\s*lastErr\(\)\s*,\s*0\s*\)\s*;\s*return\s*;"
+
+
+def _block_after(text, m_end):
+    """text[m_end-1] == '{' -> (block text without braces, index after the closing brace)"""
+    close = cxxscan.match_brace(text, m_end - 1)
+    return text[m_end:close], close + 1
+
+
+def _read_loop(fn, body, err_exit):
+    """Shape of the receive loop of `fn`: (budget or None, zero-length read ends the loop?).
+    Recognised: the header `for (;;)` / `while (true)` (no budget) or `for (int i = 0; i < N; ++i)` (N iterations per wake-up); exits: the
+    EAGAIN break, the hard-error exit, optionally the `n == 0` block ending in `break` (zero-length ends the loop) and the data block
+    `if (n > 0) {...}` ending in `break` instead of `continue` (= a budget of one). Any other break/return/goto inside the loop is not understood."""
+    m = re.search(r"\b(for|while)\s*\(([^()]*)\)\s*\{", body)
+    if not m:
+        raise TranslateError("%s: receive loop not found" % fn)
+    hdr = re.sub(r"\s+", "", m.group(2))
+    budget = None
+    if (m.group(1), hdr) in (("for", ";;"), ("while", "true"), ("while", "1")):
+        budget = None
+    else:
+        mm = re.fullmatch(r"(?:int|unsigned|std::size_t|size_t)(\w+)=0;\1<([\w:.()*+ -]+);(?:\+\+\1|\1\+\+)", hdr) if m.group(1) == "for" else None
+        if not mm:
+            raise TranslateError("%s: receive loop header `%s (%s)` is neither unbounded nor a counted budget" % (fn, m.group(1), m.group(2).strip()))
+        try:
+            budget = cxxscan.const_eval(mm.group(2))
+        except cxxscan.ScanError as e:
+            raise TranslateError("%s: receive loop budget `%s`: %s" % (fn, mm.group(2), e))
+    loop, _ = _block_after(body, m.end())
+    if len(re.findall(r"::recv(?:from)?\s*\(", loop)) != 1:
+        raise TranslateError("%s: the receive loop does not contain exactly one recv/recvfrom call" % fn)
+    rest = loop
+    # data block
+    md = re.search(r"if\s*\(\s*n\s*>\s*0\s*\)\s*\{", rest)
+    if not md:
+        raise TranslateError("%s: `if (n > 0) {` data block not found in the receive loop" % fn)
+    data, dend = _block_after(rest, md.end())
+    tail = re.sub(r"\s+", "", data)[-9:]
+    inner_exits = [x for x in re.findall(r"\b(break|return|goto)\b", data)]
+    if tail.endswith("continue;") and not inner_exits:
+        pass
+    elif tail.endswith("break;") and inner_exits == ["break"]:
+        budget = 1 if budget is None else min(budget, 1)
+    else:
+        raise TranslateError("%s: the data block of the receive loop neither ends in `continue;` nor in a single `break;`" % fn)
+    rest = rest[:md.start()] + rest[dend:]
+    # zero-length block
+    zero_ends = False
+    mz = re.search(r"if\s*\(\s*n\s*==\s*0\s*\)\s*\{", rest)
+    if mz:
+        zb, zend = _block_after(rest, mz.end())
+        zt = re.sub(r"\s+", "", zb)
+        zx = re.findall(r"\b(break|return|goto|continue)\b", zb)
+        if zt.endswith("break;") and zx == ["break"]:
+            zero_ends = True
+        elif zt.endswith("continue;") and zx == ["continue"]:
+            zero_ends = False
+        else:
+            raise TranslateError("%s: the `n == 0` block of the receive loop neither ends in `continue;` nor in `break;`" % fn)
+        rest = rest[:mz.start()] + rest[zend:]
+    n_eagain = len(re.findall(EAGAIN_EXIT, rest))
+    n_err = len(re.findall(err_exit, rest))
+    if n_eagain != 1 or n_err != 1:
+        raise TranslateError("%s: receive loop must have exactly one EAGAIN exit and one hard-error exit (found %d / %d)" % (fn, n_eagain, n_err))
+    rest = re.sub(EAGAIN_EXIT, "", rest)
+    rest = re.sub(err_exit, "", rest)
+    other = re.findall(r"\b(break|return|goto)\b", rest)
+    if other:
+        raise TranslateError("%s: the receive loop has an exit the translator does not understand (%s)" % (fn, ", ".join(other)))
+    return budget, zero_ends
+
+
+def _opt(n):
+    return "none" if n is None else "some %d" % n
+
+
 def _cfg_default(body, typ, name):
     m = re.search(r"%s\s+%s\s*\{([^{}]*)\}\s*;" % (typ, re.escape(name)), body)
     if not m:
@@ -159,6 +241,34 @@ def gen(repo):
     view_l = len(re.findall(view, rfl)) == 1 and len(re.findall(r"BufferView\s*\{", rfl)) == 1
     view_c = len(re.findall(view, oc)) == 1 and len(re.findall(r"BufferView\s*\{\s*buf", oc)) == 1
 
+    # ---- shape of the two receive loops (what a wake-up reads before it goes back to epoll_wait)
+    budget_l, zero_l = _read_loop("readFromListener", rfl, ERR_EXIT_L)
+    m_in = re.search(r"if\s*\(\s*events\s*&\s*EPOLLIN\s*\)\s*\{", oc)
+    if not m_in:
+        raise TranslateError("onClient: `if (events & EPOLLIN) {` block not found")
+    oc_in, _ = _block_after(oc, m_in.end())
+    budget_c, zero_c = _read_loop("onClient", oc_in, ERR_EXIT_C)
+    # dispatch: onListener / onClient read on EPOLLIN before they write on EPOLLOUT; handleFdEvent routes by tag
+    try:
+        ol = re.sub(r"\s+", " ", cxxscan.function_body(src, "onListener")).strip()
+        hf = re.sub(r"\s+", " ", cxxscan.function_body(src, "handleFdEvent")).strip()
+        sendb = re.sub(r"\s+", " ", cxxscan.function_body(src, "send")).strip()
+        sasync = re.sub(r"\s+", " ", cxxscan.function_body(src, "sendAsync")).strip()
+        addb = re.sub(r"\s+", " ", cxxscan.function_body(src, "addEpoll")).strip()
+        modb = re.sub(r"\s+", " ", cxxscan.function_body(src, "modEpoll")).strip()
+    except cxxscan.ScanError as e:
+        raise TranslateError("dispatch/API function missing in udp_engine.hpp: %s" % e)
+    listener_in_first = ol == "if (events & EPOLLIN) readFromListener(lst); if (events & EPOLLOUT) flushListener(lst);"
+    client_in_first = bool(re.search(r"^if \(events & EPOLLIN\) \{.*\} if \(events & EPOLLOUT\) writeClient\(s\);$", re.sub(r"\s+", " ", oc).strip()))
+    routes_by_tag = hf == ("auto it = _tags.find(fd); if (it == _tags.end()) return; Tag *t = it->second.get(); if (t->isListener) onListener(t->lst, events); "
+                           "else onClient(t->sess, events);")
+    # send(): zero length accepted without a command; otherwise ONE copy of exactly n bytes and exactly ONE enqueue(Cmd::send(...))
+    send_one = sendb == ("if (n == 0) return true; ByteBuffer b(n); std::memcpy(b.data(), p, n); SendReq sr; sr.sid = sid; sr.payload = std::move(b); "
+                         "return enqueue(Cmd::send(std::move(sr)));")
+    send_async_via_send = len(re.findall(r"\bsend\s*\(", sasync)) == 1 and sasync.startswith("bool ok = send(sid, data, len);") and "enqueue" not in re.sub(r'"[^"]*"', '""', sasync)
+    ctl_add = addb == "epoll_event e{}; e.events = ev; e.data.fd = fd; return ::epoll_ctl(_epollFd, EPOLL_CTL_ADD, fd, &e) == 0;"
+    ctl_mod = modb == "epoll_event e{}; e.events = ev; e.data.fd = fd; return ::epoll_ctl(_epollFd, EPOLL_CTL_MOD, fd, &e) == 0;"
+
     # ---- every function that mutates _peerIndex
     muts = {}
     spans = {}
@@ -290,7 +400,6 @@ def gen(repo):
     t += "def idleTimeoutS : Nat := %d\n" % idle_s
     t += "def maxConnAgeS : Nat := %d\n" % age_s
     t += "def writeStallTimeoutMs : Nat := %d\n" % stall_ms
-    t += "def gcIntervalS : Nat := %d\n" % gc_s
     t += "def closeOnBackpressure : Bool := %s\n" % _lb(cob)
     t += "def useEdgeTriggered : Bool := %s\n" % _lb(edge)
     t += "/-- DERIVED from the source text (not literals of the translator): `readFromListener` / `onClient` resize the one buffer to\n"
@@ -299,7 +408,6 @@ def gen(repo):
     t += "def recvBufferClientIsIoReadChunk : Bool := %s\n" % _lb(recv_buf_c)
     t += "def dataViewListenerIsReturnValue : Bool := %s\n" % _lb(view_l)
     t += "def dataViewClientIsReturnValue : Bool := %s\n" % _lb(view_c)
-    t += "def recvBufferIsIoReadChunk : Bool := %s\n" % _lb(recv_buf_l and recv_buf_c and view_l and view_c)
     t += "/-- `_peerIndex.erase` sites: (function, erase happens only when the entry maps to the closing session) -/\n"
     t += "def peerIndexEraseSites : List (String × Bool) := [(\"closeNow\", %s), (\"shutdownDrain\", %s)]\n" % (_lb(close_guard), _lb(drain_guard))
     t += "def closeNowEraseGuarded : Bool := %s\n" % _lb(close_guard)
@@ -341,7 +449,25 @@ def gen(repo):
     t += "def nextListenerIdAtomic : Bool := %s\ndef nextListenerIdInit : Nat := %d\n" % (_lb(lid_atomic), lid_init)
     t += "def nextSessionIdAllocators : List String := [%s]\n" % ", ".join('"%s"' % x for x in sid_uses)
     t += "def nextSessionIdMentions : Nat := %d\n" % n_sid_mentions
+    t += "/-- shape of the receive loops (DERIVED): iterations per wake-up (`none` = `for (;;)`: the only exits are the EAGAIN break and the\n"
+    t += "    hard-error exit), and whether a zero-length read leaves the loop (`break`) instead of going on (`continue` / fall through) -/\n"
+    t += "def listenerReadBudget : Option Nat := %s\ndef clientReadBudget : Option Nat := %s\n" % (_opt(budget_l), _opt(budget_c))
+    t += "def listenerZeroLenEndsLoop : Bool := %s\ndef clientZeroLenEndsLoop : Bool := %s\n" % (_lb(zero_l), _lb(zero_c))
+    t += "/-- dispatch (DERIVED): onListener/onClient handle EPOLLIN before EPOLLOUT of one merged event; handleFdEvent routes by the fd's tag;\n"
+    t += "    addEpoll/modEpoll hand exactly (fd, ev) to epoll_ctl ADD / MOD -/\n"
+    t += "def listenerReadsBeforeWrites : Bool := %s\ndef clientReadsBeforeWrites : Bool := %s\n" % (_lb(listener_in_first), _lb(client_in_first))
+    t += "def handleFdEventRoutesByTag : Bool := %s\ndef epollCtlWrappersPlain : Bool := %s\n" % (_lb(routes_by_tag), _lb(ctl_add and ctl_mod))
+    t += "/-- API (DERIVED): `send()` = nothing for n == 0, else one memcpy of n bytes and exactly one `enqueue(Cmd::send(..))`; `sendAsync()` is one `send()` call -/\n"
+    t += "def apiSendIsOneCommand : Bool := %s\ndef apiSendAsyncIsOneSend : Bool := %s\n" % (_lb(send_one), _lb(send_async_via_send))
     anchors = [(fn, cxxscan.body_sha(bodies[fn])) for fn in MIRRORED + ["addListenerDo", "key", "addressFromSockaddr"]]
+    for fn in EXTRA_ANCHORS:
+        anchors.append((fn, cxxscan.body_sha(cxxscan.function_body(src, fn))))
+    try:
+        bsrc = read(repo, B)
+        anchors.append(("processBatch", cxxscan.body_sha(cxxscan.function_body(bsrc, "processBatch"))))
+        anchors.append(("processBatchWithSpecialFDs", cxxscan.body_sha(cxxscan.function_body(bsrc, "processBatchWithSpecialFDs"))))
+    except cxxscan.ScanError as e:
+        raise TranslateError("event_batch_processor.hpp: %s" % e)
     t += "/-- mirrored functions (udp_engine.hpp) with the SHA-256 prefix of their comment-stripped, whitespace-normalised bodies -/\n"
     t += "def anchors : List (String × String) := [%s]\n" % ", ".join('("%s", "%s")' % a for a in anchors)
     t += "end Iora.Gen.Udp\n"
